@@ -936,6 +936,28 @@ def rule_r9(repo, run):
     run.floor(R, "keyword tests inside a token-class branch", nk, 1)
 
 
+def rule_r10(repo, run):
+    R = run.rule("C17.R10", "validation reaches every element and distinguishes absent from empty: no loop variable is used "
+                            "after its loop, optional parsed fields are tested with `is None`")
+    from sa import lints
+    mods = ("generate", "ast", "declast", "wrapc", "wrapf", "wrapp", "wrapl", "typemap", "main", "util")
+    found, n = lints.loop_variable_after_loop(repo, mods)
+    for mn, q, node, msg in found:
+        run.fail(R, "%s.%s:%s-after-loop" % (mn, q, node.id), msg + " (checks written for each element run once)",
+                 repo.module(mn).loc(node))
+    run.rules[R]["obligations"] += n
+    run.rules[R]["discharged"] += n - len(found)
+    run.floor(R, "for loops inspected", n, 250)
+    found, n2 = lints.truthiness_of_optional(repo, mods)
+    for mn, q, node, msg in found:
+        run.fail(R, "%s.%s:truthiness@%s" % (mn, q, re.sub(r"\s+", " ", repo.module(mn).seg(node.test))[:40]),
+                 msg + ": the check is skipped for the empty/zero case and the input is accepted or misread",
+                 repo.module(mn).loc(node))
+    run.rules[R]["obligations"] += n2
+    run.rules[R]["discharged"] += n2 - len(found)
+    run.floor(R, "truthiness tests of optional fields", n2, 2)
+
+
 def run(repo, run, tier):
     P = Program(repo)
     rule_r1(repo, run, P)
@@ -947,3 +969,4 @@ def run(repo, run, tier):
     rule_r7(repo, run)
     rule_r8(repo, run)
     rule_r9(repo, run)
+    rule_r10(repo, run)
